@@ -366,6 +366,19 @@ BASES = {
                                     {"op": "add_comp", "parents": ["VBUS", "F", "S2"], "kind": "PMux", "name": "M"},
                                     {"op": "add_comp", "parents": ["M"], "kind": "PLoad", "name": "L"},
                                     {"op": "del_comp", "target": "F", "del_childs": False}],
+    # a freed LOW node index is re-used by a non-leaf below a parent with a HIGHER index (index order is no longer a parent-first order)
+    "reused-index-subtree": [{"op": "new", "name": "S1", "rail": "VIN"}, {"op": "add_comp", "parents": ["S1"], "kind": "RLoss", "name": "X"},
+                             {"op": "add_comp", "parents": ["S1"], "kind": "Converter", "name": "C", "rail": "R1"},
+                             {"op": "add_comp", "parents": ["C"], "kind": "PLoad", "name": "L"}, {"op": "del_comp", "target": "X"},
+                             {"op": "add_comp", "parents": ["R1"], "kind": "LinReg", "name": "G", "rail": "R2"},
+                             {"op": "add_comp", "parents": ["G"], "kind": "RLoss", "name": "F"}, {"op": "add_comp", "parents": ["F"], "kind": "ILoad", "name": "L2"}],
+    # X is the SECOND declared input of the mux and has another child that was added after the mux; X is deleted without its children
+    "relinked-mux-input-with-sibling": [{"op": "new", "name": "S1"}, {"op": "add_source", "name": "S2", "variant": 1},
+                                        {"op": "add_comp", "parents": ["S1"], "kind": "RLoss", "name": "X"},
+                                        {"op": "add_comp", "parents": ["S2", "X"], "kind": "PMux", "name": "M"},
+                                        {"op": "add_comp", "parents": ["M"], "kind": "RLoad", "name": "L"},
+                                        {"op": "add_comp", "parents": ["X"], "kind": "ILoad", "name": "A"},
+                                        {"op": "del_comp", "target": "X", "del_childs": False}],
     "mux-renamed-input": [{"op": "new", "name": "S1"}, {"op": "add_source", "name": "S2"},
                           {"op": "add_comp", "parents": ["S1", "S2"], "kind": "PMux", "name": "M"}, {"op": "add_comp", "parents": ["M"], "kind": "PLoad", "name": "L"},
                           {"op": "change_comp", "target": "S2", "kind": "Source", "name": "S2b", "variant": 1}],
